@@ -250,13 +250,26 @@ func includeHeader(hdr string, signedHdrs []string) bool {
 	return false
 }
 
+// IsBigDataAction reports whether the request is an upload whose body the
+// handler streams to the backend (PutObject, UploadPart). Only for those may
+// the signature/digest verification be deferred into the body reader: every
+// other handler never consumes that reader, so the deferred check would never
+// run. "/bucket/" is a bucket request, a key ending in "/" is a directory
+// object (no data), and the retention / legal-hold subresources carry a small
+// document read with ctx.Body().
 func IsBigDataAction(ctx *fiber.Ctx) bool {
-	if ctx.Method() == http.MethodPut && len(strings.Split(ctx.Path(), "/")) >= 3 {
-		if !ctx.Request().URI().QueryArgs().Has("tagging") && ctx.Get("X-Amz-Copy-Source") == "" && !ctx.Request().URI().QueryArgs().Has("acl") {
-			return true
-		}
+	if ctx.Method() != http.MethodPut {
+		return false
 	}
-	return false
+	parts := strings.SplitN(ctx.Path(), "/", 3)
+	if len(parts) < 3 || parts[2] == "" || strings.HasSuffix(parts[2], "/") {
+		return false
+	}
+	args := ctx.Request().URI().QueryArgs()
+	if args.Has("tagging") || args.Has("acl") || args.Has("retention") || args.Has("legal-hold") {
+		return false
+	}
+	return ctx.Get("X-Amz-Copy-Source") == ""
 }
 
 // expiration time window
